@@ -29,14 +29,16 @@ META = {"assumptions": ["RLock provides mutual exclusion and re-entrancy", "no o
 
 
 def trans_worker(case):
-    meth, rc, patched, present = case
+    meth, rc, patched, present = case[:4]
+    exc = len(case) > 4 and case[4]
     ctx = get_ctx()
     ci = ctx.p.find_class("_modules_copyable")
     c, m = ctx.p.lookup_method(ci, meth)
     st = State()
     lock = Sym(("the_lock",), {GLOBAL}, tags={"lock"})
     addr = st.alloc("singleton", Inst(ci, {"lock": lock, "refcount": Const(rc), "patched_table": Const(patched)}, GLOBAL))
-    args = [Ref(addr)] + ([Const(None)] * 3 if meth == "__exit__" else [])
+    exit_args = [Const(None)] * 3 if not exc else [Sym((n,), {"IMM"}, tags={"nonsentinel"}) for n in ("exc_type", "exc_value", "tb")]
+    args = [Ref(addr)] + (exit_args if meth == "__exit__" else [])
 
     def conf(cfg):
         cfg.stubs.pop("_modules_copyable.<new>", None)
@@ -132,18 +134,21 @@ def check(ctx, rep: Report):
     rep.extra["exhaustive"] = True
     cases = [(m, rc, p, e) for m in ("__enter__", "__exit__") for rc in (0, 1, 2, 3) for p in (False, True) for e in (False, True)
              if not (m == "__exit__" and rc == 0)]
+    cases += [("__exit__", rc, p, e, True) for rc in (1, 2) for p in (False, True) for e in (False, True)]   # copy aborted by an exception
     table = {}
     lk_bad, bal_bad = [], []
     for r in pmap(trans_worker, cases):
         rep.functions |= set(r["functions"])
         rep.evaluations += len(r["rows"])
-        meth, rc, patched, present = r["case"]
+        meth, rc, patched, present = r["case"][:4]
+        aborted = len(r["case"]) > 4
         oks = [row for row in r["rows"] if row["kind"] == "ok"]
         if len(oks) != 1:
             bal_bad.append(f"{meth} from (refcount={rc}, patched={patched}, entry present={present}) has {len(oks)} normal outcomes")
             continue
         row = oks[0]
-        table[(meth, rc, patched, present)] = row
+        if not aborted:
+            table[(meth, rc, patched, present)] = row
         rep.nontrivial.add((meth, rc, patched, present, row["rc"], row["patched"], tuple(row["table"])))
         for u in row["unlocked"]:
             lk_bad.append((meth, u))
@@ -157,7 +162,7 @@ def check(ctx, rep: Report):
             exp = (rc - 1, False if last else patched, ["delete"] if last else [])
         got = (row["rc"], row["patched"], row["table"])
         if got != exp:
-            bal_bad.append(f"{meth} from (refcount={rc}, patched={patched}, entry present={present}): expected (refcount, patched, table ops)={exp}, got {got}")
+            bal_bad.append(f"{meth}{' after an aborted copy (exception passed to __exit__)' if aborted else ''} from (refcount={rc}, patched={patched}, entry present={present}): expected (refcount, patched, table ops)={exp}, got {got}")
     rep.oblige("C20.BAL", "__enter__/__exit__ tables", not bal_bad, "; ".join(bal_bad[:2]) or f"{len(table)} start states")
     rep.sample({"entry": "transition table", "rows": [[list(k), v] for k, v in list(table.items())[:4]]})
     for b in bal_bad[:3]:
